@@ -295,7 +295,7 @@ Proof.
 Qed.
 
 (* ---- today's code ---- *)
-(* "%grmtools{}\n%%\na 'ID'\n", header end 11: name_span (6,8) selects "mt" *)
+(* "%grmtools{}\n%%\na 'ID'\n", header end 11: name_span (7,9) selects "ls" *)
 Definition refute_src : text :=
   [37;103;114;109;116;111;111;108;115;123;125;10;37;37;10;97;32;39;73;68;39;10]%N.
 
